@@ -1501,6 +1501,8 @@ class Interp:
                 return obj.shape
         if isinstance(obj, (int, z3.ArithRef, z3.BoolRef)) and name == "dtype":
             return Opaque("dtype")
+        if isinstance(obj, slice) and name in ("start", "stop", "step"):
+            return getattr(obj, name)
         if isinstance(obj, (int, z3.ArithRef, z3.BoolRef)) and name == "ndim":
             return 0                    # a NumPy scalar / 0-d array (np.asanyarray of a scalar)
         if isinstance(obj, (int, z3.ArithRef)) and name == "astype":
